@@ -26,6 +26,40 @@ FILES = vlib.BUILD / ("C07" + vlib.ALT_TAG)
 _BLOCK_TYPE = __import__("re").compile(r"block_type='Conv[23]d'")
 
 
+def mutate_named_hp(agent, seed, which):
+    """Mutations.mutation with the hyper-parameter kind forced (evo.apply_mutation) AND the sampled hyper-parameter scripted:
+    HyperparameterConfig.sample() draws torch.randperm(len(config))[0]; the draw is replaced in-process so that it selects
+    `which` ('lr' = first learning-rate name, 'lr_last' = last one, or an attribute name such as 'batch_size')."""
+    import torch
+    a = evo.unwrap(agent)
+    names = list(a.registry.hp_config.names())
+    lrn = list(a.get_lr_names())
+    target = lrn[0] if which == "lr" else lrn[-1] if which == "lr_last" else which
+    idx = names.index(target)
+    orig = torch.randperm
+
+    def fake(n, *args, **kw):
+        if n != len(names):
+            return orig(n, *args, **kw)
+        return torch.tensor([idx] + [j for j in range(n) if j != idx])
+    torch.randperm = fake
+    try:
+        return evo.apply_mutation(agent, "hp", seed)
+    finally:
+        torch.randperm = orig
+
+
+def opt_groups(agent):
+    """per optimizer: the settings of every param_group (everything but the parameters themselves)"""
+    a = evo.unwrap(agent)
+    out = {}
+    for oc in a.registry.optimizers:
+        w = getattr(a, oc.name)
+        out[oc.name] = [{k: (list(v) if isinstance(v, tuple) else v) for k, v in sorted(g.items()) if k != "params"}
+                        for o in evo._opt_list(w) for g in o.param_groups]
+    return out
+
+
 def _coq_str(s):
     assert all(32 <= ord(c) < 127 and c != '"' for c in s), s
     return f'(s_of "{s}"%string)'
@@ -63,6 +97,21 @@ class C07(vlib.Driver):
                  ["score", 0, 4], ["save", 0], ["load_into", 1, 1], ["act", 0, 6], ["act", 1, 6, 0]] + pair3(0, 1, 40) +
                 [["load", 0], ["learn", 3, 50]])
 
+    @staticmethod
+    def fresh_optimizer_ops():
+        """checkpoints written right after a mutation that re-creates the optimizers, with NO learn step in between (the saved
+        optimizer state is empty, so everything the optimizer knows is in its param_groups), restored into a member whose
+        hyper-parameters (lr, batch_size) differ from the saved ones and through Algo.load; both copies then resume identically"""
+        pair3 = lambda p, c, s: [["learn", p, s], ["learn", c, s, p], ["learn", p, s + 1], ["learn", c, s + 1, p],
+                                 ["learn", p, s + 2], ["learn", c, s + 2, p]]
+        return ([["learn", 0, 1], ["learn", 1, 2],
+                 ["mutate", 1, "hp", 11, "batch_size"], ["mutate", 0, "hp", 12, "lr"],
+                 ["save", 0], ["load_into", 0, 1]] + pair3(0, 1, 20) +
+                [["mutate", 1, "hp", 13, "lr_last"], ["mutate", 1, "hp", 14, "lr"], ["mutate", 0, "arch", 15],
+                 ["save", 0], ["load", 1], ["load_into", 1, 1]] + pair3(0, 2, 30) +
+                [["learn", 1, 33], ["mutate", 0, "param", 16], ["mutate", 0, "hp", 17, "lr_last"],
+                 ["save", 0], ["load_into", 2, 2]] + pair3(0, 2, 40))
+
     def generate(self, tier, rng):
         cases = []
         algos = evo.ALGOS
@@ -82,12 +131,17 @@ class C07(vlib.Driver):
                     ops.append(["clone", rng.randrange(n), rng.choice([None, 10 + n])]); n += 1
                 elif r < 0.82 or nfiles == 0:
                     i = rng.randrange(n)
-                    ops.append(["save", i]); f = nfiles; nfiles += 1
                     q = rng.random()
+                    c = rng.choice([j for j in range(n) if j != i]) if (n >= 2 and (q >= 0.45 or n >= 5) and q < 0.8) else None
+                    if rng.random() < 0.5:       # the file is written right after a mutation (optimizers re-created, never stepped)
+                        if c is not None:        # ... and loaded into a member whose hyper-parameters differ
+                            ops.append(["mutate", c, "hp", rng.randrange(1000), rng.choice(["lr", "lr_last", "batch_size"])])
+                        ops.append(rng.choice([["mutate", i, "hp", rng.randrange(1000), rng.choice(["lr", "lr_last"])],
+                                               ["mutate", i, "arch", rng.randrange(1000)], ["mutate", i, "param", rng.randrange(1000)]]))
+                    ops.append(["save", i]); f = nfiles; nfiles += 1
                     if q < 0.45 and n < 5:       # immediate resume into a new member
                         ops.append(["load", f]); n += 1; c = n - 1
-                    elif q < 0.8 and n >= 2:     # immediate resume into another member
-                        c = rng.choice([j for j in range(n) if j != i])
+                    elif c is not None:          # immediate resume into another member
                         ops.append(["load_into", f, c])
                     else:
                         continue
@@ -119,6 +173,8 @@ class C07(vlib.Driver):
             for share in ([False, True] if algo in evo.SHARE_CAPABLE else [False]):
                 add(algo, "vector", share, "partial", 0, 1, ops=self.boundary_ops())
         add("DQN", "vector", False, "partial", 0, 2, wrapper=True, ops=self.boundary_ops())
+        for algo in algos:
+            add(algo, "vector", algo == "PPO", "partial", 0, 3, ops=self.fresh_optimizer_ops())
         if only == "boundary":
             return cases
         if tier == "quick":
@@ -178,7 +234,10 @@ class C07(vlib.Driver):
                         p = pop[op[1]]
                         pop.append(p.clone() if op[2] is None else p.clone(index=op[2]))
                     elif k == "mutate":
-                        pop[op[1]] = evo.apply_mutation(pop[op[1]], op[2], op[3])
+                        if len(op) > 4:      # hyper-parameter mutation with the sampled hyper-parameter scripted
+                            pop[op[1]] = mutate_named_hp(pop[op[1]], op[3], op[4])
+                        else:
+                            pop[op[1]] = evo.apply_mutation(pop[op[1]], op[2], op[3])
                         rec["label"] = evo.unwrap(pop[op[1]]).mut
                     elif k == "save":
                         path = str(FILES / f"ck_{tag}_{len(files)}.pt")
@@ -212,8 +271,10 @@ class C07(vlib.Driver):
     @staticmethod
     def _snap(pop):
         out = []
-        for ag in evo.snapshot(pop):
+        for member, ag in zip(pop, evo.snapshot(pop)):
             st = ag["struct"]
+            for name, groups in opt_groups(member).items():
+                st["opts"][name]["groups"] = json.loads(json.dumps(groups, default=str))
             for d in st["nets"].values():
                 # C01 known finding (faithful@dict:{MADDPG,MATD3,IPPO}:arch, frame@dict:*:struct): multi-agent networks built
                 # without an explicit cnn_config share the module-level DefaultCnnConfig object, whose block_type is flipped
@@ -276,9 +337,11 @@ class C07(vlib.Driver):
             elif k == "load_into":
                 ops.append(f"CLoadInto {op[1]}%nat {op[2]}%nat")
         obl = [evo.coq_obs(st, reg, tab) for st in obs["states"]]
+        lrt = ["[" + "; ".join("[" + "; ".join("[" + "; ".join(evo._q(x) for x in d["lrs"]) + "]" for d in ag["struct"]["opts"].values()) + "]"
+                               for ag in st) + "]" for st in obs["states"]]
         nets = "[" + "; ".join(_coq_str(n) for n in obs["names"]["nets"]) + "]"
         opts = "[" + "; ".join(_coq_str(n) for n in obs["names"]["opts"]) + "]"
-        return f"ccheck_run {w0} [{'; '.join(ops)}] [{'; '.join(obl)}] {nets} {opts}"
+        return f"ccheck_run {w0} [{'; '.join(ops)}] [{'; '.join(obl)}] [{'; '.join(lrt)}] {nets} {opts}"
 
     # ------------------------------------------------------------------ oracle: the property on the implementation
     def oracle(self, case, obs):
@@ -436,8 +499,11 @@ class C07(vlib.Driver):
             out.append(Violation("restore", sig("restore", path, "hp"), f"{what}: hyper-parameters differ {ps['hps']} vs {cs['hps']}"))
         for o in ps["opts"]:
             x, y = ps["opts"][o], cs["opts"][o]
-            if x["lrs"] != y["lrs"] or x["nstate"] != y["nstate"]:
-                out.append(Violation("restore", sig("restore", path, "opt"), f"{what}: optimizer {o} settings differ {x['lrs']}/{x['nstate']} vs {y['lrs']}/{y['nstate']}"))
+            if x["lrs"] != y["lrs"] or x["nstate"] != y["nstate"] or x.get("groups") != y.get("groups"):
+                gd = [(i, k, g.get(k), h.get(k)) for i, (g, h) in enumerate(zip(x.get("groups", []), y.get("groups", []))) for k in g if g.get(k) != h.get(k)]
+                out.append(Violation("restore", sig("restore", path, "opt"),
+                                     f"{what}: optimizer {o} of the restored agent does not have the saved optimizer's settings: param_group lr {x['lrs']} (saved) vs "
+                                     f"{y['lrs']} (restored); state tensors {x['nstate']} vs {y['nstate']}; differing param_group entries (group, key, saved, restored) {gd[:6]}"))
             if not y["refs_ok"]:
                 out.append(Violation("restore", sig("restore", path, "optrefs"), f"{what}: optimizer {o} of the restored agent does not hold the restored parameters"))
         if ps["books"] != cs["books"] or ps["mut"] != cs["mut"]:
@@ -468,7 +534,7 @@ class C07(vlib.Driver):
 
     def key(self, case):
         return json.dumps([case["algo"], case["family"], case["share"], case["netcfg"], bool(case.get("wrapper")),
-                           [o[0] if o[0] != "mutate" else o[0] + ":" + o[2] for o in case["ops"]]])
+                           [o[0] if o[0] != "mutate" else ":".join([o[0], o[2]] + [str(x) for x in o[4:]]) for o in case["ops"]]])
 
     def nontrivial(self, case, obs):
         ops = case["ops"][:len(obs["states"]) - 1]
@@ -503,7 +569,7 @@ class C07(vlib.Driver):
         labs = [f"algo={case['algo']}", f"family={case['family']}", f"wrapper={bool(case.get('wrapper'))}", f"share={case['share']}",
                 f"netcfg={case['netcfg']}", f"len={min(len(case['ops']) // 8 * 8, 32)}+"]
         for o in case["ops"]:
-            labs.append("op=" + (o[0] if o[0] != "mutate" else "mutate:" + o[2]))
+            labs.append("op=" + (o[0] if o[0] != "mutate" else ":".join(["mutate", o[2]] + [str(x) for x in o[4:]])))
         for r in obs["recs"]:
             if r["op"] == "mutate":
                 labs.append("label=" + str(r.get("label")))
